@@ -50,27 +50,8 @@ class Sim:
     def event(self, kind, file, *args, yield_=True):
         s = boot.STATE["sched"]
         actor = self.actor
-        plan = self.write_plan
-        if plan is not None and plan.get("at_event") is not None and kind in MUTATIONS \
-                and not plan.get("fired") and plan.get("actor") in (None, actor) \
-                and (actor, self.epoch) not in self.killed:
-            # crash point = "just before the n-th disk-mutating operation of the writer" (for a
-            # write: just after the chunk that the event reports, i.e. before the next one)
-            seen = plan.get("seen_events", 0)
-            plan["seen_events"] = seen + 1
-            if seen == plan["at_event"]:
-                plan["fired"] = True
-                plan["fired_at"] = [kind, str(file)]
-                self.fault(plan["kind"])
-                if plan["kind"] == "kill":
-                    self.log.append((len(self.log), actor, "kill-at-event", kind, file))
-                    self.kill_current()
-                    raise SimKill(kind, file)
-                if kind in ("open-w", "mkdir", "write"):
-                    import errno
-
-                    self.log.append((len(self.log), actor, "enospc-at-event", kind, file))
-                    raise OSError(errno.ENOSPC, "No space left on device (simulated)", str(file))
+        if kind in MUTATIONS and kind != "write":
+            self.crash_point(kind, file)
         self.log.append((len(self.log), actor, kind, file) + args)
         if len(self.log) > self.max_events:
             self.budget_hit = True
@@ -79,6 +60,34 @@ class Sim:
             raise SimAbort("event budget exceeded")
         if yield_ and s is not None and s.is_actor_thread():
             s.yield_point()
+
+    def crash_point(self, kind, file):
+        """crash point = just before a disk-mutating operation of the writer takes effect (mkdir,
+        open for writing, each write chunk, close, rename, unlink, ...): the planned kill / ENOSPC
+        fires at the n-th of them, whatever protocol the writer follows"""
+        plan = self.write_plan
+        actor = self.actor
+        if plan is None or plan.get("at_event") is None or plan.get("fired") \
+                or plan.get("actor") not in (None, actor) or self.quiet \
+                or (actor, self.epoch) in self.killed:
+            return
+        seen = plan.get("seen_events", 0)
+        plan["seen_events"] = seen + 1
+        if seen != plan["at_event"]:
+            return
+        plan["fired"] = True
+        plan["fired_at"] = [kind, str(file)]
+        if plan["kind"] == "kill":
+            self.fault("kill")
+            self.log.append((len(self.log), actor, "kill-before", kind, file))
+            self.kill_current()
+            raise SimKill(kind, file)
+        if kind in ("open-w", "mkdir", "write"):
+            import errno
+
+            self.fault("enospc")
+            self.log.append((len(self.log), actor, "enospc-at", kind, file))
+            raise OSError(errno.ENOSPC, "No space left on device (simulated)", str(file))
 
     def read_request(self, path):
         """called by the read-side seams before a read / ranged fetch is served: raises the
